@@ -196,7 +196,8 @@ Error BaseAssembler::embed_data_array(TypeId type_id, const void* data, size_t i
 #ifndef ASMJIT_NO_LOGGING
   if (_logger) {
     StringTmp<512> sb;
-    Formatter::format_data(sb, _logger->flags(), arch(), type_id, data, item_count, repeat_count);
+    // The resolved type: an abstract one (kIntPtr / kUIntPtr) has no size the formatter could use.
+    Formatter::format_data(sb, _logger->flags(), arch(), final_type_id, data, item_count, repeat_count);
     sb.append('\n');
     _logger->log(sb);
   }
